@@ -589,6 +589,8 @@ pub(crate) fn add(ctx: &mut TulispContext) {
 
     #[crate_fn(add_func = "ctx")]
     fn append(first: TulispObject, rest: TulispObject) -> Result<TulispObject, Error> {
+        // The result is built on a copy: the arguments are left as they are.
+        let first = first.deep_copy()?;
         for ele in rest.base_iter() {
             first.append(ele.deep_copy()?)?;
         }
